@@ -4,6 +4,8 @@
 // C15 (TECMP conversion). All inputs come from the independent builders in ref/.
 #include <asam_cmp/tecmp_decoder.h>
 
+#define MC_ALLOCFAULT_IMPL
+#include "mc/allocfault.h"
 #include "engines/wire_common.h"
 #include "ref/captures.h"
 
@@ -324,8 +326,11 @@ static uint64_t digestPackets(W& w, const std::vector<std::shared_ptr<Packet>>& 
     return h;
 }
 
-static void judgeC02(W& w, int pre, const std::vector<Buf>& hist)
+// abortIdx >= 0: the decode call for buffer abortIdx is first made with its allocation number abortN failing (the call ends with
+// std::bad_alloc, the caller gets nothing), then the buffer is presented again. Returns false if that call makes fewer allocations.
+static bool judgeC02(W& w, int pre, const std::vector<Buf>& hist, int abortIdx = -1, int abortN = 0)
 {
+    bool fired = abortIdx < 0;
     std::vector<std::vector<std::shared_ptr<Packet>>> kept;
     std::vector<uint64_t> d1;
     uint64_t oh = 0;
@@ -335,6 +340,30 @@ static void judgeC02(W& w, int pre, const std::vector<Buf>& hist)
         applyPre(d, pre, f0.size() >= 4 ? (uint16_t) ref::rd(&f0[2], 2) : 1, f0.size() >= 6 ? f0[5] : 1);
         for (size_t i = 0; i < hist.size(); ++i)
         {
+            if ((int) i == abortIdx && !hist[i].isNull)
+            {
+                Bytes f = hist[i].full();
+                uint8_t* copy = static_cast<uint8_t*>(malloc(f.size() ? f.size() : 1));
+                memcpy(copy, f.data(), f.size());
+                bool thrown = false;
+                mc::af::arm(abortN);
+                try
+                {
+                    auto lost = d.decode(copy, f.size());
+                    mc::af::disarm();
+                }
+                catch (const std::bad_alloc&)
+                {
+                    thrown = true;
+                }
+                fired = mc::af::disarm();
+                free(copy);
+                if (!fired)
+                    return false;
+                if (!thrown)
+                    w.fail("aborted-call:allocation-failure-swallowed", fmt("allocation %d of the decode call for buffer %zu failed, the call returned normally", abortN, i));
+                w.add(mc::C_TRANS, 1);
+            }
             Decoded r = decodeExact(d, hist[i]);
             w.add(mc::C_TRANS, 1);
             if (r.inputChanged)
@@ -363,6 +392,7 @@ static void judgeC02(W& w, int pre, const std::vector<Buf>& hist)
         if (digestPackets(w, kept[i], true) != d1[i])
             w.fail("safety:returned-packet-changed-after-input-release", fmt("packets returned for buffer %zu read differently after the input was freed, more frames were decoded and the decoder was destroyed", i));
     w.outcome(oh);
+    return fired;
 }
 
 static std::string showHist(int pre, const std::vector<Buf>& h)
@@ -1369,6 +1399,107 @@ static void judgeC03Packet(W& w, uint8_t mt, const Bytes& buf)
 }
 
 // ---------------------------------------------------------------------------------------------
+// Histories with one aborted decode call (C02: "after any history of earlier decode calls" includes calls that ended in an
+// exception; C03: every packet returned as valid afterwards has its views inside its own bytes - judgeC02 sweeps all typed
+// accessors of every valid packet under ASan). Enumerates, for every buffer of the history, every allocation of its decode call.
+static void abortedHistories(W& w, const std::vector<Buf>& h)
+{
+    for (size_t i = 0; i < h.size(); ++i)
+        for (int n = 1; n < 100; ++n)
+        {
+            {
+                // probe without judging: does the call make n allocations?
+                Decoder d;
+                bool fired = false;
+                for (size_t q = 0; q <= i; ++q)
+                {
+                    if (q == i)
+                    {
+                        Bytes f = h[q].full();
+                        mc::af::arm(n);
+                        try
+                        {
+                            auto lost = d.decode(f.data(), f.size());
+                            mc::af::disarm();
+                        }
+                        catch (const std::bad_alloc&)
+                        {
+                        }
+                        fired = mc::af::disarm();
+                    }
+                    else
+                        decodeExact(d, h[q]);
+                }
+                if (!fired)
+                    break;
+            }
+            auto desc = [&] { return showHist(0, h) + fmt(";abort=%zu:%d", i, n); };
+            if (!w.begin_case(desc))
+                continue;
+            judgeC02(w, 0, h, (int) i, n);
+            w.add(mc::C_TRACES, 1);
+            w.add(mc::C_STATES, h.size() + 1);
+        }
+}
+
+static std::vector<std::vector<Buf>> abortBaseHistories(int cls, bool thorough)
+{
+    std::vector<std::vector<Buf>> out;
+    auto seg = [](uint8_t mt, uint8_t pt, uint16_t seq, uint8_t sg, const Bytes& body) {
+        ref::FrameHdr fh;
+        fh.device = 3; fh.stream = 4; fh.msgType = mt; fh.seq = seq;
+        Buf x;
+        x.base = ref::buildFrame(fh, {ref::mkMsg(pt, body, (uint8_t) (sg << 2), 11, 12)});
+        return x;
+    };
+    if (cls < 0)
+    {
+        // generic payloads: F(a) [I(b)] L(c), then an unsegmented frame with two messages
+        static const size_t sizes[] = {0, 1, 17, 1000};
+        for (size_t a : sizes)
+            for (size_t c : sizes)
+                for (int bi = -1; bi < 4; ++bi)
+                {
+                    std::vector<Buf> h;
+                    uint16_t seq = 65534;
+                    h.push_back(seg(ref::MT_DATA, 0xFE, seq++, ref::SEG_FIRST, patt(a, 1)));
+                    if (bi >= 0)
+                        h.push_back(seg(ref::MT_DATA, 0xFE, seq++, ref::SEG_MID, patt(sizes[bi], 2)));
+                    h.push_back(seg(ref::MT_DATA, 0xFE, seq++, ref::SEG_LAST, patt(c, 3)));
+                    ref::FrameHdr fh;
+                    fh.device = 3; fh.stream = 4; fh.seq = seq;
+                    Buf u;
+                    u.base = ref::buildFrame(fh, {ref::mkMsg(0xFE, patt(5, 4), 0, 13, 14), ref::mkMsg(0xFE, patt(6, 5), 0, 15, 16)});
+                    h.push_back(u);
+                    out.push_back(h);
+                }
+        return out;
+    }
+    // typed payloads of class cls (every buffer of the C03 generator at header + 8 bytes, thorough: + 40): unsegmented, and split over two segments
+    for (size_t len : {kCls[cls].hdr + 8, kCls[cls].hdr + 40})
+    {
+        if (len != kCls[cls].hdr + 8 && !thorough)
+            continue;
+        c03Buffers(cls, len, [&](const Bytes& b) {
+            if (b.size() < 2 || b.size() > 65535)
+                return;
+            out.push_back({seg(kCls[cls].mt, kCls[cls].pt, 65535, ref::SEG_NONE, b)});
+            size_t cut = b.size() / 2;
+            out.push_back({seg(kCls[cls].mt, kCls[cls].pt, 65535, ref::SEG_FIRST, Bytes(b.begin(), b.begin() + cut)), seg(kCls[cls].mt, kCls[cls].pt, 0, ref::SEG_LAST, Bytes(b.begin() + cut, b.end()))});
+        });
+    }
+    return out;
+}
+
+static void abortedRound(mc::Run& run, bool thorough)
+{
+    run.round("histories with a decode call aborted at its n-th allocation (every n, every buffer) and repeated: reassembly F(a) [I(b)] L(c) [U U] over sizes {0,1,17,1000}, and the typed payloads of the 7 classes unsegmented / split over two segments",
+              8, [&, thorough](W& w, uint64_t o) {
+                  for (auto& h : abortBaseHistories((int) o - 1, thorough))
+                      abortedHistories(w, h);
+              });
+}
+
 int main(int argc, char** argv)
 {
     mc::Options opt = mc::parse_args(argc, argv, "wire");
@@ -1453,7 +1584,10 @@ int main(int argc, char** argv)
             std::vector<Buf> h;
             for (auto& s : mc::split(kv["h"], ','))
                 h.push_back(Buf::parse(s));
-            judgeC02(w, atoi(kv["pre"].c_str()), h);
+            if (kv.count("abort"))
+                judgeC02(w, atoi(kv["pre"].c_str()), h, atoi(kv["abort"].c_str()), atoi(kv["abort"].c_str() + kv["abort"].find(':') + 1));
+            else
+                judgeC02(w, atoi(kv["pre"].c_str()), h);
         };
         if (!opt.case_file.empty())
             return run.run_single(readCase(opt.case_file));
@@ -1582,6 +1716,7 @@ int main(int argc, char** argv)
                           });
                       });
         }
+        abortedRound(run, thorough);
         run.round("histories: all ordered pairs of the sub-corpus on one decoder", ctx.sub.size(), [&](W& w, uint64_t o) {
             for (size_t j = 0; j < ctx.sub.size(); ++j)
             {
@@ -1637,7 +1772,14 @@ int main(int argc, char** argv)
                    "distinct = distinct (accepted?, accessor digest) outcomes";
         run.replay_case = [](W& w, const std::string& cs) {
             auto kv = mc::kv_parse(cs);
-            if (kv.count("mt"))
+            if (kv.count("abort"))
+            {
+                std::vector<Buf> h;
+                for (auto& s : mc::split(kv["h"], ','))
+                    h.push_back(Buf::parse(s));
+                judgeC02(w, 0, h, atoi(kv["abort"].c_str()), atoi(kv["abort"].c_str() + kv["abort"].find(':') + 1));
+            }
+            else if (kv.count("mt"))
                 judgeC03Packet(w, (uint8_t) strtoul(kv["mt"].c_str(), nullptr, 16), mc::unhex(kv["m"]));
             else if (kv.count("tf"))
                 judgeC03Tecmp(w, mc::unhex(kv["tf"]));
@@ -1677,6 +1819,8 @@ int main(int argc, char** argv)
                 });
             });
         }
+        // packets returned as valid after a decode call of the history was aborted by a failing allocation and repeated
+        abortedRound(run, thorough);
         // message level
         run.round("message level: isValidPacket(buf) => Packet(type, buf): buffer length 0..48 x declared length x flags x payload type x frame message type", 49,
                   [&](W& w, uint64_t o) {
